@@ -35,6 +35,9 @@ type Op struct {
 	Action uint32 `json:"action,omitempty"` // mk(action filters) / inject
 	Target int    `json:"target,omitempty"` // rm: index into the handlers created so far, or -1 / 9999 for unknown ids
 	Closer bool   `json:"closer,omitempty"` // mk: register a close callback
+	// Fail (mkconsumer: a handler registered through AddHandler, i.e. a callback
+	// behind the library's own queue): the callback reports an error for every message
+	Fail bool `json:"fail,omitempty"`
 }
 
 // Case is a sequential script, or (Workers > 0) a concurrent workload.
@@ -56,7 +59,7 @@ type Case struct {
 }
 
 func genOp(t *rapid.T, allowShutdown bool) Op {
-	kinds := []string{"mk", "mk", "mk", "rm", "rm", "rm", "rmbad", "inject", "inject", "inject", "inject", "mkfull", "injectcall", "injectcall"}
+	kinds := []string{"mk", "mk", "mk", "rm", "rm", "rm", "rmbad", "inject", "inject", "inject", "inject", "mkfull", "injectcall", "injectcall", "mkconsumer"}
 	if allowShutdown {
 		kinds = append(kinds, "close", "peerclose")
 	}
@@ -76,6 +79,11 @@ func genOp(t *rapid.T, allowShutdown bool) Op {
 		// a consumer with room for one message which nobody reads
 		op.Filter = "all"
 		op.Closer = true
+	case "mkconsumer":
+		op.Filter = rapid.SampledFrom([]string{"all", "all", "action", "once", "leaveaction"}).Draw(t, "cfilter")
+		op.Action = uint32(rapid.IntRange(1, 3).Draw(t, "caction"))
+		op.Closer = true
+		op.Fail = rapid.Bool().Draw(t, "fail")
 	}
 	return op
 }
@@ -125,6 +133,8 @@ type handler struct {
 	filter    string
 	action    uint32
 	hasCloser bool
+	consumer  bool // registered through AddHandler: the callback records, the queue is the library's
+	failing   bool // the callback reports an error for every message
 	full      bool          // room for one message, never read: what it receives is not judged
 	release   chan struct{} // closed when the reader may start (at once, or for a full handler when its close callback ran)
 	relOnce   sync.Once
@@ -180,6 +190,11 @@ func (h *handler) match(action uint32) (bool, bool) {
 
 func newHandler(op Op) *handler {
 	h := &handler{filter: op.Filter, action: op.Action, hasCloser: op.Closer, queue: make(chan *qnet.Message, 512), done: make(chan struct{}), deliveredAtCloser: -1, release: make(chan struct{})}
+	if op.Kind == "mkconsumer" {
+		// no queue of its own: the close callback is all that can be observed
+		h.consumer, h.failing, h.hasCloser = true, op.Fail, true
+		return h
+	}
 	if op.Kind == "mkfull" {
 		// nobody reads this queue until its close callback has run
 		h.full, h.hasCloser, h.filter = true, true, "all"
@@ -232,10 +247,25 @@ func (h *handler) closer() qnet.Closer {
 			h.deliveredAtCloser = len(h.received) + len(h.queue)
 		}
 		h.mu.Unlock()
-		atomic.AddInt32(&h.closerN, 1)
+		if atomic.AddInt32(&h.closerN, 1) == 1 && h.consumer {
+			atomic.StoreInt64(&h.closedAt, tick())
+			close(h.done)
+		}
 		if h.full {
 			h.relOnce.Do(func() { close(h.release) })
 		}
+	}
+}
+
+func (h *handler) consumerFn() qnet.Consumer {
+	return func(m *qnet.Message) error {
+		h.mu.Lock()
+		h.received = append(h.received, m.Header.ID)
+		h.mu.Unlock()
+		if h.failing {
+			return fmt.Errorf("harness: the consumer does not like message %d", m.Header.ID)
+		}
+		return nil
 	}
 }
 
@@ -317,9 +347,14 @@ func checkSequential(c Case) (err error) {
 	}()
 	for i, op := range c.Ops {
 		switch op.Kind {
-		case "mk", "mkfull":
+		case "mk", "mkfull", "mkconsumer":
 			h := newHandler(op)
-			h.id = e.MakeHandler(h.filterFn(), h.queue, h.closer())
+			if h.consumer {
+				h.id = e.AddHandler(h.filterFn(), h.consumerFn(), h.closer())
+				vt.Label("handler-registered-through-AddHandler")
+			} else {
+				h.id = e.MakeHandler(h.filterFn(), h.queue, h.closer())
+			}
 			h.regDone = tick()
 			hs = append(hs, h)
 			if shutdown {
@@ -440,6 +475,17 @@ func checkSequential(c Case) (err error) {
 		}
 		if err := checkClosed(h, "shutdown/removal"); err != nil {
 			return err
+		}
+		if h.consumer {
+			// the callbacks of what was queued when the handler left are still made
+			for deadline := time.Now().Add(wait); time.Now().Before(deadline); time.Sleep(50 * time.Microsecond) {
+				h.mu.Lock()
+				n := len(h.received)
+				h.mu.Unlock()
+				if n >= len(h.expected) {
+					break
+				}
+			}
 		}
 		h.mu.Lock()
 		got := append([]uint32{}, h.received...)
